@@ -779,35 +779,35 @@ def m_chain(I, st, c, args, cont, depth, site):
     cont(st, IterVal(op, to_iter(I, st, args[0]), 0, b=to_iter(I, st, args[1])))
 
 
-def drain(I, st, it, depth, each, done):
-    """each(st, item, k_continue(st)) for every item, then done(st)"""
-    def step(st, it):
+def drain(I, st, it, depth, each, done, acc=()):
+    """fork-safe fold: each(st, item, acc, k(st, acc2)) for every item, then done(st, panic_or_None, acc).
+    The accumulator is an immutable value threaded through the continuations, so paths that fork inside a closure
+    never share it."""
+    def step(st, it, acc):
         def k(st2, it2, v):
             if v is PANIC:
-                return done(st2, PANIC)
+                return done(st2, PANIC, acc)
             if v.variant == 'None':
-                return done(st2, None)
-            each(st2, v.f[0], lambda st3: step(st3, it2))
+                return done(st2, None, acc)
+            each(st2, v.f[0], acc, lambda st3, acc2: step(st3, it2, acc2))
         iter_next(I, st, it, depth, k)
-    step(st, it)
+    step(st, it, acc)
 
 
 @model(r' as (std::iter::)?Iterator>::collect::<', 'Iterator::collect')
 def m_collect(I, st, c, args, cont, depth, site):
     it = to_iter(I, st, args[0])
     target = re.search(r'collect::<(.*)>$', c).group(1)
-    out = []
     as_result = target.startswith(('std::result::Result<', 'Result<'))
 
-    def each(st2, x, k):
+    def each(st2, x, acc, k):
         if as_result:
             if isinstance(x, Enum) and x.variant == 'Err':
                 return cont(st2, x)
             x = x.f[0]
-        out.append(x)
-        k(st2)
+        k(st2, acc + (x,))
 
-    def done(st2, p):
+    def done(st2, p, out):
         if p is PANIC:
             return cont(st2, PANIC)
         outer = target
@@ -825,7 +825,6 @@ def m_collect(I, st, c, args, cont, depth, site):
         else:
             res = VecVal(out)
         cont(st2, ok(res) if as_result else res)
-    # a single-path drain (closures may fork; out is shared, so forbid forks by checking)
     drain(I, st, it, depth, each, done)
 
 
@@ -833,19 +832,14 @@ def m_collect(I, st, c, args, cont, depth, site):
 def m_for_each(I, st, c, args, cont, depth, site):
     it = to_iter(I, st, args[0])
     clo = args[1]
-    drain(I, st, it, depth, lambda st2, x, k: I.call_closure(st2, clo, [x], lambda st3, r: cont(st3, PANIC) if r is PANIC else k(st3), depth),
-          lambda st2, p: cont(st2, PANIC if p is PANIC else unit()))
+    drain(I, st, it, depth, lambda st2, x, acc, k: I.call_closure(st2, clo, [x], lambda st3, r: cont(st3, PANIC) if r is PANIC else k(st3, acc), depth),
+          lambda st2, p, acc: cont(st2, PANIC if p is PANIC else unit()))
 
 
 @model(r' as (std::iter::)?Iterator>::count$', 'Iterator::count')
 def m_count(I, st, c, args, cont, depth, site):
     it = to_iter(I, st, args[0])
-    n = [0]
-
-    def each(st2, x, k):
-        n[0] += 1
-        k(st2)
-    drain(I, st, it, depth, each, lambda st2, p: cont(st2, PANIC if p is PANIC else usize(n[0])))
+    drain(I, st, it, depth, lambda st2, x, acc, k: k(st2, acc + 1), lambda st2, p, acc: cont(st2, PANIC if p is PANIC else usize(acc)), 0)
 
 
 @model(r' as (std::iter::)?(Iterator|DoubleEndedIterator)>::(position|rposition|any|all|find|find_map)::<', 'Iterator::position|any|all|find')
@@ -1486,13 +1480,11 @@ def m_sort(I, st, c, args, cont, depth, site):
         insert2(1, st, [0])
 
     if op in ('sort_by_key', 'sort_unstable_by_key'):
-        keys = []
-
-        def keystep(i, st):
+        def keystep(i, st, keys):
             if i >= n:
                 return with_keys(st, list(keys))
-            I.call_closure(st, args[1], [elem_ref(r, i)], lambda s2, kv: (keys.append(kv), keystep(i + 1, s2))[1], depth)
-        return keystep(0, st)
+            I.call_closure(st, args[1], [elem_ref(r, i)], lambda s2, kv: keystep(i + 1, s2, keys + (kv,)), depth)
+        return keystep(0, st, ())
     with_keys(st, None)
 
 
@@ -1610,3 +1602,11 @@ def m_opt_filter(I, st, c, args, cont, depth, site):
 @model(r'^(std::string::)?String::new$', 'String::new')
 def m_string_new(I, st, c, args, cont, depth, site):
     cont(st, Opaque('str:""'))
+
+
+@model(r'^(std::result::)?Result::<.*>::and_then::<', 'Result::and_then')
+def m_res_and_then(I, st, c, args, cont, depth, site):
+    v = _opt(I, st, args[0])
+    if v.variant == 'Err':
+        return cont(st, v)
+    I.call_closure(st, args[1], [v.f[0]], cont, depth)
